@@ -47,6 +47,10 @@ func genC05Map(rng *simkit.Rand, p *simkit.Plan, idx int) {
 		key := int64(1 + rng.Intn(nkeys))
 		if rng.Chance(1, 6) {
 			key = int64(1+rng.Intn(nkeys)) * 4000000007 % (1 << 40) // far apart
+			if rng.Chance(1, 2) {
+				// a key whose low 32 bits equal those of a small key of the same index (the in-memory map keeps keys relative to a 32-bit section start)
+				key = int64(1+rng.Intn(nkeys)) + int64(1+rng.Intn(3))<<32
+			}
 		}
 		switch x := rng.Intn(100); {
 		case x < 45:
